@@ -70,6 +70,9 @@ pub enum Corruption {
 pub struct TokVar {
   pub members: Vec<(u8, Value)>,
   pub corruption: Corruption,
+  /// when set the authentic payload is valid JSON but not an object: 0 array, 1 string, 2 number, 3 null, 4 bool
+  #[serde(default)]
+  pub non_object: Option<u8>,
 }
 
 #[derive(Clone, Debug, Serialize, Deserialize)]
@@ -86,6 +89,10 @@ pub struct ValCase {
   /// register odd-numbered validators with check_claim + extend_validation_claims (generic parser only)
   #[serde(default)]
   pub via_extend: bool,
+  /// validators with index >= `late_from` are registered only after the first parse of the history
+  /// (validate_claim, or check_claim + extend_validation_claims) - they must be honoured from then on
+  #[serde(default)]
+  pub late_from: Option<u8>,
 }
 
 pub struct Validators {
@@ -146,18 +153,34 @@ impl Sub for Validators {
       .collect();
     // tokens
     let mut built: Vec<(String, serde_json::Map<String, Value>, &Corruption)> = vec![];
-    for tv in &c.tokens {
+    let late_from0 = c.late_from.map(|l| l as usize).unwrap_or(usize::MAX);
+    let n_tokens = c.tokens.len();
+    for (ti, tv) in c.tokens.iter().enumerate() {
+      // validators in force when this token is parsed (late ones join after the first parse)
+      let in_force = |vk: &str| vals.iter().any(|(id, k, _)| k == vk && (!(*id >= late_from0 && n_tokens > 1) || ti >= 1));
       let mut o = serde_json::Map::new();
       for (ki, v) in &tv.members {
         let k = KEYS[(*ki as usize) % KEYS.len()];
         // the batteries-included parser keeps its own rule for exp / nbf unless the caller registered one:
         // such members stay out of the payload so that the model below is only about the caller's validators
-        if c.layer == Layer::Prelude && (k == "exp" || k == "nbf") && !vals.iter().any(|(_, vk, _)| vk == k) {
+        if c.layer == Layer::Prelude && (k == "exp" || k == "nbf") && !in_force(k) {
           continue;
         }
         o.insert(k.to_string(), v.clone());
       }
-      let payload = Value::Object(o.clone()).to_string();
+      let (payload, o) = match tv.non_object {
+        Some(k) => (
+          match k % 5 {
+            0 => Value::Array(o.values().cloned().collect()).to_string(),
+            1 => "\"a string payload\"".to_string(),
+            2 => "42".to_string(),
+            3 => "null".to_string(),
+            _ => "true".to_string(),
+          },
+          serde_json::Map::new(), // no member is visible to a validator
+        ),
+        None => (Value::Object(o.clone()).to_string(), o),
+      };
       let t = match core_build(&lk, &[2u8; 32][..if p == Proto::V2L { 24 } else { 32 }], &payload, c.footer.as_deref(), assertion) {
         Ok(t) => t,
         Err(_) => return Verdict::Discard,
@@ -198,7 +221,11 @@ impl Sub for Validators {
     if let Some(a) = assertion {
       parser.assertion(a);
     }
+    let late_from = c.late_from.map(|l| l as usize).unwrap_or(usize::MAX);
     for ((id, k, _), spec) in vals.iter().zip(claim_specs.iter()) {
+      if *id >= late_from && built.len() > 1 {
+        continue; // registered after the first parse, below
+      }
       if c.via_extend && id % 2 == 1 && c.layer == Layer::Generic {
         // the other public way: the claim is checked, its validator arrives through extend_validation_claims
         if parser.check(spec).is_err() || !parser.extend_validators(&[(k.clone(), VALIDATORS[*id])]) {
@@ -212,7 +239,21 @@ impl Sub for Validators {
     cl.tag(format!("{}:{}", p.label(), c.layer.label()));
     cl.tag(format!("validators={}", vals.len()));
     let mut interesting = false;
+    let mut active: Vec<(usize, String, u8)> = vals.iter().filter(|(id, _, _)| !(*id >= late_from && built.len() > 1)).cloned().collect();
     for (i, (t, payload, corruption)) in built.iter().enumerate() {
+      if i == 1 && active.len() < vals.len() {
+        for ((id, k, kind), spec) in vals.iter().zip(claim_specs.iter()) {
+          if *id >= late_from {
+            let ok = if c.via_extend && c.layer == Layer::Generic { parser.check(spec).is_ok() && parser.extend_validators(&[(k.clone(), VALIDATORS[*id])]) } else { parser.validate(spec, VALIDATORS[*id]).is_ok() };
+            if !ok {
+              return Verdict::Discard;
+            }
+            active.push((*id, k.clone(), *kind));
+          }
+        }
+        cl.tag("validator-registered-between-parses");
+      }
+      let vals = active.clone();
       LOG.with(|l| l.borrow_mut().clear());
       // per-parse overrides for the wrong-footer / wrong-assertion / wrong-key variants need their own parser
       let r = match corruption {
@@ -233,8 +274,8 @@ impl Sub for Validators {
             }
             p2.assertion(&wrong_assertion);
           }
-          for ((id, _, _), spec) in vals.iter().zip(claim_specs.iter()) {
-            let _ = p2.validate(spec, VALIDATORS[*id]);
+          for (id, _, _) in vals.iter() {
+            let _ = p2.validate(&claim_specs[*id], VALIDATORS[*id]);
           }
           p2.parse(t, &lk)
         }
@@ -321,23 +362,23 @@ fn case(proto: Proto, layer: Layer) -> BoxedStrategy<ValCase> {
     1 => any::<u8>().prop_map(Corruption::Truncate),
   ];
   // the batteries-included parser has its own validators for exp/nbf; iat (index 7) only carries plain values here
-  let tok = (vec((0u8..11, member_value()), 0..5), corruption).prop_map(|(members, corruption)| TokVar { members, corruption });
+  let tok = (vec((0u8..11, member_value()), 0..5), corruption, prop_oneof![12 => Just(None), 1 => (0u8..5).prop_map(Some)]).prop_map(|(members, corruption, non_object)| TokVar { members, corruption, non_object });
   // histories: some tokens repeat the previous one verbatim (same text), authentic again or presented under a wrong key /
   // footer / assertion - a parser that remembers its last token must not behave differently
   let toks = vec((tok, 0u8..8), 1..=6).prop_map(|v| {
     let mut out: Vec<TokVar> = vec![];
     for (t, rep) in v {
       match (rep, out.last().cloned()) {
-        (0, Some(prev)) => out.push(TokVar { members: prev.members, corruption: Corruption::None }),
-        (1, Some(prev)) => out.push(TokVar { members: prev.members, corruption: Corruption::WrongKey }),
-        (2, Some(prev)) => out.push(TokVar { members: prev.members, corruption: Corruption::WrongFooter }),
+        (0, Some(prev)) => out.push(TokVar { members: prev.members, corruption: Corruption::None, non_object: prev.non_object }),
+        (1, Some(prev)) => out.push(TokVar { members: prev.members, corruption: Corruption::WrongKey, non_object: prev.non_object }),
+        (2, Some(prev)) => out.push(TokVar { members: prev.members, corruption: Corruption::WrongFooter, non_object: prev.non_object }),
         _ => out.push(t),
       }
     }
     out
   });
-  (gen::bytes32(), vec((0u8..11, 0u8..5), 0..5), toks, prop_oneof![Just(None), gen::jsonish(6).prop_map(Some)], prop_oneof![Just(None), gen::jsonish(6).prop_map(Some)], any::<bool>())
-    .prop_map(move |(seed, validators, tokens, footer, assertion, via_extend)| ValCase { proto, layer, seed, validators, tokens, footer, assertion, via_extend })
+  (gen::bytes32(), vec((0u8..11, 0u8..5), 0..5), toks, prop_oneof![Just(None), gen::jsonish(6).prop_map(Some)], prop_oneof![Just(None), gen::jsonish(6).prop_map(Some)], any::<bool>(), prop_oneof![3 => Just(None), 1 => (0u8..4).prop_map(Some)])
+    .prop_map(move |(seed, validators, tokens, footer, assertion, via_extend, late_from)| ValCase { proto, layer, seed, validators, tokens, footer, assertion, via_extend, late_from })
     .boxed()
 }
 
